@@ -4,7 +4,7 @@ EXTRA_ONLY = set()
 NOTES = ("Technique family: contract-based deductive verification of the real code. Exit codes of every check: 0 discharged, "
          "1 VIOLATION (refuted obligation), 2 undecided (time-out/weaver abort; never a violation). See DESIGN.md. Genuine defects repaired in /repo by unguarded fix: commits "
          "(known_findings.txt): 0e2256e mpz_inp_raw short read, 12a3475 and d465c1e gmp_printf flag rules, 6510f97 block byte sizes in int, ea6e797 LC generator with odd m2exp, "
-         "e76c625 mpz_get_str beyond INT_MAX digits. No hook commits: nothing in /repo tests the guard define.")
+         "e76c625 mpz_get_str beyond INT_MAX digits, bc7e1ad mpq_mul_2exp/div_2exp in place. No hook commits: nothing in /repo tests the guard define.")
 
 TB = ("Trusted: CBMC 6.11 + kissat; the loop-cut weaver (engine/weave.py; must-fail mutants per unit in the thorough tier); "
       "shim models of the x86-64 inline asm in longlong.h; operand length <= 2^40 limbs; the telescoping-sum lemma (carry chain at "
@@ -46,7 +46,7 @@ claim('C12',
       "mpq_neg, mpq_abs, mpq_set, mpq_set_z, mpq_set_ui/si, mpq_set_num/den, mpq_get_num/den, mpq_swap: parts copied limb for limb, "
       "denominator positive, both parts well-formed in distinct blocks - hence canonical form is preserved.",
       TB + "mpq_mul/div/add/sub/canonicalize are GLUE proofs on value tokens over ASSUMED gcd/divexact/mul/add contracts (the result is the reduced "
-      "fraction expressed through those uninterpreted functions, denominator positive, every aliasing). NOT covered: mpq_mul_2exp/div_2exp, mpq_set_d/set_f, "
+      "fraction expressed through those uninterpreted functions, denominator positive, every aliasing). mpq_mul_2exp/div_2exp: only the BOUNDED stand-in mpq_2exp_enum (complete enumeration of canonical fractions over 431 small operands x 19 counts x in place or not; it exhibited defect bc7e1ad - overlapping copy in the wrong direction in place - which is repaired). NOT covered: mpq_set_d/set_f, "
       "mpq_cmp*. mpq_equal IS proved (1 exactly when both parts agree in size and limb for limb). _mpz_realloc is used by contract (proved in unit mpz_realloc_int against the allocator model).")
 claim('C04',
       "For every function under contract: the representation invariant (allocation >= 1, |size| <= allocation, block of exactly ALLOC limbs, no "
@@ -81,7 +81,7 @@ claim('C01',
       "operand order and non-overlap preconditions of the multi-limb multipliers, no leak - over ASSUMED shape contracts of mpn_mul/sqr/basecase.",
       TB + "NOT decided: the VALUE computed by mpn_mul/mul_n/sqr and every algorithm above one row (schoolbook accumulation, Karatsuba, Toom, FFT) - they "
       "need mathematical integers / polynomial identities that CBMC's bit-vector logic cannot express; mpz_mul with three distinct arguments (no solver "
-      "verdict, DESIGN 11.3), mpz_addmul/submul: no unit. mpz_mul_ui / mpz_mul_si ARE proved limb-exact over the proved mpn_mul_1 contract (sign, size un or un+1, carry limb, w == u).")
+      "verdict, DESIGN 11.3) and mpz_addmul/submul(_ui) (mpz_aorsmul_1): no PROOF unit - only the BOUNDED stand-in mpz_aorsmul_enum (complete enumeration of 431 small operands x multipliers x alias modes, 10.3 million calls against two's-complement schoolbook arithmetic written in the driver; labelled bounded, not proof). mpz_mul_ui / mpz_mul_si ARE proved limb-exact over the proved mpn_mul_1 contract (sign, size un or un+1, carry limb, w == u).")
 claim('C02',
       "Glue proofs over ASSUMED truncating division: for every value and every permitted aliasing of (q, r, n, d), mpz_fdiv_qr/q/r, mpz_cdiv_qr/q/r and "
       "mpz_mod return exactly the manual's floor/ceiling/non-negative quotient and remainder expressed through the truncating pair (adjust iff the "
